@@ -48,6 +48,7 @@ type Contract struct {
 	Labels map[*Clause]string
 	Lets   map[string]Expr
 	CallReqs []*CallReq // extra conditions at call sites inside this function
+	EntryCount string // ghost counter (declared in the spec) that every entry of this function increments
 	CancellableSends bool // every channel send of this function sits in a select next to a receive from a context's Done channel
 	InitReq  map[int]bool // indexes into Requires: established by package init, not re-proved at call sites
 	SendReqs []*Clause  // conditions on values this function sends on a channel ("sent" names the value)
@@ -60,7 +61,7 @@ type Contract struct {
 }
 
 var clauseKeywords = map[string]bool{
-	"func": true, "mode": true, "props": true, "trusted": true, "requires": true, "ensures": true, "initrequires": true, "cancellablesends": true,
+	"func": true, "mode": true, "props": true, "trusted": true, "requires": true, "ensures": true, "initrequires": true, "cancellablesends": true, "entrycount": true,
 	"assigns": true, "nopanic": true, "pure": true, "loop": true, "invariant": true, "decreases": true,
 	"note": true, "funcfield": true, "iface": true, "global": true, "let": true, "oracle": true, "covers": true, "def": true, "callreq": true, "sendreq": true, "preserves": true, "retreq": true, "recvassume": true, "onskip": true, "iterpost": true,
 }
@@ -233,6 +234,10 @@ func parseContractLines(sc *bufio.Scanner, path, pkgPath string) ([]*Contract, e
 			}
 		case "cancellablesends":
 			cur.CancellableSends = true
+		case "entrycount":
+			// `entrycount G`: a ghost statement at entry, G = G + 1 (old(G) is the value before it). With
+			// `ensures G > old(G)` it lets a caller state "this call was made" (an iterpost G > athead(G)).
+			cur.EntryCount = strings.TrimSpace(rc.text)
 		case "oracle":
 			cur.Oracle = true
 		case "covers":
